@@ -17,13 +17,20 @@
 (* The environment (transport manager, connections, remote peers) is       *)
 (* explicit nondeterminism:                                                *)
 (*   open_substream_or_dial -> substream being opened / dial started /     *)
-(*     dial accepted by the handle but dropped by the manager / immediate  *)
-(*     error (no address, AlreadyConnected + failed retry, refused);       *)
+(*     immediate error (no address, AlreadyConnected + failed retry,       *)
+(*     refused); a dial accepted by the handle but refused inside the      *)
+(*     manager (outgoing limit) is reported as a DialFailure since commit  *)
+(*     7c774cf of /repo, i.e. it is "dial started" followed by DialFail    *)
+(*     (the old behaviour - silently dropped - is the seeded mutation      *)
+(*     Mut = "hdial_dropped");                                             *)
 (*   then dial failure / established, substream opened / failed,           *)
 (*   send ok / fail, read ok / fail / timeout, connection closed.          *)
 (* link[p] separates the manager's view from what Kademlia has been told:  *)
 (*   down, dialing, estp (established, event not yet delivered), up,       *)
-(*   closedp (closed, ConnectionClosed not yet delivered).                 *)
+(*   closedp (closed, ConnectionClosed not yet delivered),                 *)
+(*   limbo (known finding of C05 "outbound-established-rejected-by-limit": *)
+(*   the negotiated connection is refused by the outgoing limit and the    *)
+(*   manager reports nothing, the dial never gets an outcome).             *)
 (*                                                                         *)
 (* Known-defect paths set a tag in kf (as in ConnMgrMC); the invariants    *)
 (* are stated for behaviours that took none of them, and the `Fixed`       *)
@@ -58,7 +65,7 @@ VARIABLES role,    \* peer -> role
 vars == <<role, link, redial, pctx, pdials, pacts, osub, ex, eng, qc, mon, kf>>
 
 None == 0
-AllTags == {"put-target-error-ignored", "hdial-refused-silently", "est-open-substream-err-unreported"}
+AllTags == {"put-target-error-ignored", "outbound-established-rejected-by-limit", "est-open-substream-err-unreported"}
 NoFixed == {}
 AllRoles == {"any", "healthy", "undialable", "noaddr", "silent", "nokad", "dropafter"}
 AnyOnly == {"any"}
@@ -123,11 +130,11 @@ Terminal(E, q, ok) ==
 
 OODChoices(p) ==
   CASE link[p] = "up" -> {"sub"}
-    [] link[p] = "closedp" -> {"sub", "dial", "err"} \cup (IF Limit /\ "hdial-refused-silently" \notin Fixed THEN {"dialdrop"} ELSE {})
+    [] link[p] = "closedp" -> {"sub", "dial", "err"} \cup (IF Mut = "hdial_dropped" THEN {"dialdrop"} ELSE {})
     [] link[p] = "dialing" -> {"dial"}
     [] link[p] = "estp" -> {"err"}      \* AlreadyConnected, second open_substream fails too
     [] OTHER -> IF role[p] = "noaddr" THEN {"err"}
-                ELSE {"dial"} \cup (IF Limit /\ "hdial-refused-silently" \notin Fixed THEN {"dialdrop"} ELSE {})
+                ELSE {"dial"} \cup (IF Mut = "hdial_dropped" THEN {"dialdrop"} ELSE {})
                               \cup (IF role[p] = "any" THEN {"err"} ELSE {})
 
 ApplyOOD(S, f, a, tags) ==
@@ -137,7 +144,7 @@ ApplyOOD(S, f, a, tags) ==
   /\ pacts' = [p \in Peers |-> IF p \in S /\ f[p] = "sub" THEN pacts[p] \cup {a} ELSE pacts[p]]
   /\ pctx' = [p \in Peers |-> IF p \in S /\ f[p] = "sub" THEN TRUE ELSE pctx[p]]
   /\ osub' = osub \cup {[p |-> p, q |-> a.q, k |-> a.k, tr |-> TRUE] : p \in {x \in S : f[x] = "sub"}}
-  /\ kf' = kf \cup tags \cup (IF \E p \in S : f[p] = "dialdrop" THEN {"hdial-refused-silently"} ELSE {})
+  /\ kf' = kf \cup tags
 
 -----------------------------------------------------------------------------
 (* User commands and engine actions handled by on_query_action              *)
@@ -203,7 +210,8 @@ TrackDone(q) ==
 (* Transport events                                                         *)
 
 CanEst(p) == role[p] \in {"any", "healthy", "silent", "nokad", "dropafter"}
-CanDialFail(p) == role[p] \in {"any", "undialable"}
+\* a dial refused inside the manager (outgoing limit) is reported as a dial failure too
+CanDialFail(p) == role[p] \in {"any", "undialable"} \/ Limit
 CanSubOpen(p) == role[p] \in {"any", "healthy", "silent", "dropafter"}
 CanSubFail(p) == role[p] \in {"any", "nokad", "dropafter"} \/ link[p] # "up"
 CanExOk(p, k) == role[p] \in {"any", "healthy", "dropafter"} \/ (role[p] = "silent" /\ k # "find")
@@ -216,6 +224,16 @@ DialFail(p) ==
   /\ pdials' = [pdials EXCEPT ![p] = {}]
   /\ eng' = IF Mut = "dialfail_no_report" THEN eng ELSE RegFailSet(eng, {a.q : a \in pdials[p]}, p)
   /\ UNCHANGED <<role, redial, pctx, pacts, osub, ex, qc, mon, kf>>
+
+\* C05 known finding: two dials in flight, the outgoing limit is reached by the first connection,
+\* the second negotiated connection is rejected and the manager reports nothing
+DialRejectedByLimit(p) ==
+  /\ Limit /\ "outbound-established-rejected-by-limit" \notin Fixed
+  /\ link[p] = "dialing" /\ CanEst(p)
+  /\ \E o \in Peers \ {p} : link[o] \in {"estp", "up"}
+  /\ link' = [link EXCEPT ![p] = "limbo"]
+  /\ kf' = kf \cup {"outbound-established-rejected-by-limit"}
+  /\ UNCHANGED <<role, redial, pctx, pdials, pacts, osub, ex, eng, qc, mon>>
 
 \* the manager sees the connection; Kademlia's event is in flight
 DialOk(p) ==
@@ -345,7 +363,7 @@ ExFail(x) ==
 Next ==
   \/ \E q \in Qs : Start(q) \/ LookupDone(q) \/ GetEarly(q) \/ ToFound(q) \/ TrackDone(q)
                    \/ (\E p \in Peers : Schedule(q, p))
-  \/ \E p \in Peers : DialFail(p) \/ DialOk(p) \/ InboundEst(p) \/ DeliverEst(p) \/ ConnClose(p)
+  \/ \E p \in Peers : DialFail(p) \/ DialOk(p) \/ DialRejectedByLimit(p) \/ InboundEst(p) \/ DeliverEst(p) \/ ConnClose(p)
                       \/ DeliverClosed(p) \/ InSub(p)
   \/ \E s \in osub : SubOpened(s) \/ SubFail(s) \/ SubVanish(s)
   \/ \E x \in ex : ExFindOk(x) \/ ExSendOk(x) \/ ExAssumeUnsent(x) \/ ExFail(x)
@@ -360,7 +378,7 @@ Stuck(q) == \/ eng[q].ph \in {"idle", "done"}
             \/ (eng[q].ph = "track" /\ eng[q].tpend # {})
 \* nothing outstanding anywhere: every connection has ended (idle connections are closed by the
 \* keep-alive timeout), no dial / substream / executor future is in flight, the engine is drained
-Quiescent == /\ \A p \in Peers : link[p] = "down"
+Quiescent == /\ \A p \in Peers : link[p] \in {"down", "limbo"}
              /\ osub = {} /\ ex = {}
              /\ \A q \in Qs : Stuck(q)
 
